@@ -139,7 +139,10 @@ def rule_copy(ctx, repo):
 
 def rule_index_set(ctx, repo):
     f = F.method(repo, "System", "set_output_subidx", SYSTEM)
-    ok = Q.has("self.Output.xidx = sorted(np.unique(export_vars['x']))", f.fn) and Q.has("self.Output.yidx = sorted(np.unique(export_vars['y']))", f.fn)
+    # sorted and duplicate-free, whatever spells it (np.unique sorts)
+    forms = ("sorted(np.unique(export_vars['%s']))", "np.unique(export_vars['%s']).tolist()", "list(np.unique(export_vars['%s']))",
+             "sorted(set(export_vars['%s']))", "np.unique(export_vars['%s'])")
+    ok = all(any(Q.has(("self.Output.%sidx = " % c_) + (fm % c_), f.fn) for fm in forms) for c_ in ("x", "y"))
     ctx.check(ok, "C15.index", "System.set_output_subidx", "xidx/yidx = sorted unique addresses collected by v_code",
               "Output index sets are no longer the sorted unique addresses", f.W())
     ok = Q.has("export_vars[$item.v_code].extend($item.a)", f.fn) and Q.has("export_vars[$item.v_code].append($item.a[$uid])", f.fn) and \
@@ -299,13 +302,18 @@ def rule_store_flow(ctx, repo):
         ctx.check(not bad_o, "C15.flow", "TDS.run/offload", "chunk written (unless output is off) exactly when, and before, the in-memory series is cleared",
                   "; ".join(bad_o[:3]), r.W())
     s = F.method(repo, "TDS", "save_output", TDS)
-    ok = Q.has("self.system.dae.ts.idx_ptr = len(self.system.dae.ts.t)", s.fn)
+    ok = any(isinstance(st_, ast.Assign) and dotted(st_.targets[0]) == "self.system.dae.ts.idx_ptr" and Q.length_of(st_.value) is not None
+             and src(Q.length_of(st_.value)) == "self.system.dae.ts.t" for st_ in walk_noscope(s.fn))
     ctx.check(ok, "C15.flow", "TDS.save_output/pointer", "write pointer advanced after every write", "idx_ptr not updated after writing", s.W())
     rr = F.method(repo, "DAETimeSeries", "reset", DAE)
-    ok = Q.has("self.idx_ptr = 0", rr.fn) and all(Q.has("self.%s = OrderedDict()" % k, rr.fn) for k in ("_xs", "_ys", "_zs"))
+    ok = Q.has("self.idx_ptr = 0", rr.fn) and all(any(isinstance(st_, ast.Assign) and dotted(st_.targets[0]) == "self.%s" % k and Q.is_empty_mapping(st_.value)
+                                                       for st_ in walk_noscope(rr.fn)) for k in ("_xs", "_ys", "_zs"))
     ctx.check(ok, "C15.flow", "DAETimeSeries.reset", "storage and pointer cleared together", "reset leaves the write pointer or part of the storage", rr.W())
     w = F.method(repo, "DAE", "write_npz", DAE)
-    ok = Q.has("txyz_data = self.ts.txyz[ts.idx_ptr:, :]", w.fn) and Q.has("data = np.vstack((data, txyz_data))", w.fn)
+    part = [st_ for st_ in walk_noscope(w.fn) if isinstance(st_, ast.Assign) and dotted(st_.targets[0]) == "txyz_data"
+            and isinstance(st_.value, ast.Subscript)]
+    ok = bool(part) and all(Q.rows_from(st_.value) is not None and [src(x_).replace("self.ts.", "ts.") for x_ in Q.rows_from(st_.value)]
+                            == ["ts.txyz", "ts.idx_ptr"] for st_ in part) and Q.has("data = np.vstack((data, txyz_data))", w.fn)
     ctx.check(ok, "C15.flow", "DAE.write_npz/append", "incremental write appends rows from idx_ptr on", "incremental write no longer appends exactly the new rows", w.W())
 
 
